@@ -240,7 +240,22 @@ func init() {
 	clone := model{pure: true, fn: func(fv *FuncVerifier, call *ast.CallExpr, args []Term, st *State) []Term {
 		return []Term{args[0]}
 	}}
+	strPred := func(op string, swap bool) model {
+		return model{pure: true, fn: func(fv *FuncVerifier, call *ast.CallExpr, args []Term, st *State) []Term {
+			if !fv.u.strTheory {
+				reject("strings.%s needs `theory strings`", op)
+			}
+			a, b := args[0], args[1]
+			if swap {
+				a, b = b, a
+			}
+			return []Term{mk(sortBool, "(%s %s %s)", op, a.S, b.S)}
+		}}
+	}
 	builtinModels = map[string]model{
+		"strings.HasPrefix":                         strPred("str.prefixof", true),
+		"strings.HasSuffix":                         strPred("str.suffixof", true),
+		"strings.Contains":                          strPred("str.contains", false),
 		"slices.Contains":                           contains,
 		"github.com/samber/lo.Contains":             contains,
 		"slices.Clone":                              clone,
@@ -264,6 +279,62 @@ func init() {
 		"errors.Is":                           isErr,
 		"github.com/synnaxlabs/x/errors.Is":   isErr,
 		"github.com/synnaxlabs/x/errors.Skip": isErr,
+		// lo.Map(s, func(x T, i int) R { return e }): r with len(r) == len(s) and r[i] == e[x:=s[i]]
+		"github.com/samber/lo.Map": {pure: false, fn: func(fv *FuncVerifier, call *ast.CallExpr, args []Term, st *State) []Term {
+			lit, ok := ast.Unparen(call.Args[1]).(*ast.FuncLit)
+			if !ok || len(lit.Body.List) != 1 {
+				reject("lo.Map needs a single-return function literal at %s", fv.pos(call.Pos()))
+			}
+			ret, ok := lit.Body.List[0].(*ast.ReturnStmt)
+			if !ok || len(ret.Results) != 1 {
+				reject("lo.Map needs a single-return function literal at %s", fv.pos(call.Pos()))
+			}
+			src := args[0]
+			rs := fv.mustSort(fv.typeOf(call), "lo.Map result")
+			r := fv.u.freshConst("mapped", rs)
+			st.assume(mk(sortBool, "(= %s %s)", slLen(r).S, slLen(src).S))
+			// bind the literal's parameters to s[i] and i
+			var names []*ast.Ident
+			for _, f := range lit.Type.Params.List {
+				names = append(names, f.Names...)
+			}
+			saved := map[types.Object]Term{}
+			bindTmp := func(id *ast.Ident, v Term) {
+				if id == nil || id.Name == "_" {
+					return
+				}
+				obj := fv.info().Defs[id]
+				if old, ok := fv.bound[obj]; ok {
+					saved[obj] = old
+				}
+				fv.bound[obj] = v
+			}
+			iv := Term{"i!m", sortInt}
+			if len(names) > 0 {
+				bindTmp(names[0], slAt(src, iv))
+			}
+			if len(names) > 1 {
+				bindTmp(names[1], iv)
+			}
+			fv.specMode++
+			fv.quantDepth++
+			body := fv.evalTo(ret.Results[0], fv.typeOf(call).Underlying().(*types.Slice).Elem(), st)
+			fv.quantDepth--
+			fv.specMode--
+			for _, id := range names {
+				if id.Name == "_" {
+					continue
+				}
+				obj := fv.info().Defs[id]
+				if old, ok := saved[obj]; ok {
+					fv.bound[obj] = old
+				} else {
+					delete(fv.bound, obj)
+				}
+			}
+			st.assume(mk(sortBool, "(forall ((i!m Int)) (! (=> (and (<= 0 i!m) (< i!m %s)) (= (select %s i!m) %s)) :pattern ((select %s i!m))))", slLen(src).S, slArr(r).S, body.S, slArr(r).S))
+			return []Term{r}
+		}},
 		"slices.Insert": {pure: false, fn: func(fv *FuncVerifier, call *ast.CallExpr, args []Term, st *State) []Term {
 			if len(args) != 3 || call.Ellipsis.IsValid() {
 				reject("slices.Insert with other than one inserted value")
